@@ -142,7 +142,7 @@ func VerifC38_history() {
 	r.nowMs = 1
 	l, _ := verifNewLimiter(r, int(limit), time.Duration(wms)*time.Millisecond)
 	k := int(verifParam("calls", 3))
-	var winIDs, winSums []int64
+	var winIDs, winSums, winEpochs []int64
 	for i := 0; i < k; i++ {
 		now := verifNondetInt64()
 		verifAssume(now > 0 && now < 1<<44)
@@ -162,10 +162,20 @@ func VerifC38_history() {
 		}
 		res, err := verifCallLimiter(l, kind, n)
 		verifAssert(err == nil, "the call succeeds")
+		// the counter's epoch: how often the window keys have been (re)created so far
+		epoch := int64(0)
+		for _, c := range r.calls {
+			if c == "SET" {
+				epoch++
+			}
+		}
 		if res.Allowed && n > 0 {
 			found := false
 			for j := range winIDs {
 				if winIDs[j] == res.ResetAtMs {
+					// a caller that read its clock before the window's keys expired on the server (stalled for
+					// more than window + 1 s) re-creates a window carrying the same ResetAtMs
+					verifAssert(winEpochs[j] == epoch, "a window's ResetAtMs is not reused for a fresh counter after the window's keys expired")
 					winSums[j] += n
 					found = true
 					verifAssert(winSums[j] <= limit, "the units admitted in one window never exceed the limit")
@@ -174,6 +184,7 @@ func VerifC38_history() {
 			if !found {
 				winIDs = append(winIDs, res.ResetAtMs)
 				winSums = append(winSums, n)
+				winEpochs = append(winEpochs, epoch)
 				verifAssert(n <= limit, "the units admitted in one window never exceed the limit")
 			}
 			verifReach("admitted")
